@@ -59,10 +59,16 @@ func (d *DAGMutex[T]) RLock(ids ...T) {
 
 // RUnlock unlocks reading for all given entities.
 // It does not affect other simultaneous readers.
+//
+// The registrations of the given entities are only dropped after all their read locks have been released: a call that
+// panics (an entity that is not registered often enough, or an entity that is not locked for reading) leaves the
+// registry as it was.
 func (d *DAGMutex[T]) RUnlock(ids ...T) {
-	for _, mutex := range d.unregisterMutexes(ids...) {
+	for _, mutex := range d.lookupMutexes(ids...) {
 		mutex.RUnlock()
 	}
+
+	d.unregisterMutexes(ids...)
 }
 
 // Lock locks the given entity for writing.
@@ -81,15 +87,19 @@ func (d *DAGMutex[T]) Lock(id T) {
 // entity within DAGMutex and then arrange for another goroutine to RUnlock (Unlock) it.
 func (d *DAGMutex[T]) Unlock(id T) {
 	d.Mutex.Lock()
-	mutex := d.unregisterMutex(id)
-	if mutex == nil {
-		d.Mutex.Unlock()
-
-		return
-	}
+	mutex, mutexExists := d.mutexes.Get(id)
 	d.Mutex.Unlock()
 
+	if !mutexExists {
+		panic(ierrors.Errorf("called Unlock or RUnlock too often for entity with %v", id))
+	}
+
+	// the registration is only dropped after the write lock has been released: if the entity is not locked for
+	// writing, this panics and leaves the registry as it was. Our own registration keeps the entity (and this very
+	// mutex) in the registry until then.
 	mutex.Unlock()
+
+	d.unregisterMutexes(id)
 }
 
 func (d *DAGMutex[T]) registerMutexes(ids ...T) (mutexes []*StarvingMutex) {
@@ -116,37 +126,48 @@ func (d *DAGMutex[T]) registerMutex(id T) (mutex *StarvingMutex) {
 	return mutex
 }
 
-func (d *DAGMutex[T]) unregisterMutexes(ids ...T) (mutexes []*StarvingMutex) {
+// lookupMutexes returns the mutexes of the given entities without modifying the registry. It panics if one of the
+// entities is not registered as often as it occurs in ids.
+func (d *DAGMutex[T]) lookupMutexes(ids ...T) (mutexes []*StarvingMutex) {
 	d.Mutex.Lock()
 	defer d.Mutex.Unlock()
 
-	mutexes = make([]*StarvingMutex, 0)
-	for _, id := range ids {
-		if mutex := d.unregisterMutex(id); mutex != nil {
-			mutexes = append(mutexes, mutex)
+	mutexes = make([]*StarvingMutex, len(ids))
+	needed := make(map[T]int, len(ids))
+	for i, id := range ids {
+		mutex, mutexExists := d.mutexes.Get(id)
+		needed[id]++
+		if count, _ := d.consumerCounter.Get(id); !mutexExists || needed[id] > count {
+			panic(ierrors.Errorf("called Unlock or RUnlock too often for entity with %v", id))
 		}
+		mutexes[i] = mutex
 	}
 
 	return mutexes
 }
 
-func (d *DAGMutex[T]) unregisterMutex(id T) (mutex *StarvingMutex) {
-	mutex, mutexExists := d.mutexes.Get(id)
-	if !mutexExists {
+func (d *DAGMutex[T]) unregisterMutexes(ids ...T) {
+	d.Mutex.Lock()
+	defer d.Mutex.Unlock()
+
+	for _, id := range ids {
+		d.unregisterMutex(id)
+	}
+}
+
+func (d *DAGMutex[T]) unregisterMutex(id T) {
+	if !d.mutexes.Has(id) {
 		panic(ierrors.Errorf("called Unlock or RUnlock too often for entity with %v", id))
 	}
 
-	// the last consumer drops the entity, but still unlocks the mutex it held, so that an unlock in the wrong
-	// mode panics instead of silently discarding somebody else's lock.
+	// the last consumer drops the entity.
 	if count, _ := d.consumerCounter.Get(id); count == 1 {
 		d.consumerCounter.Delete(id)
 		d.mutexes.Delete(id)
 
-		return mutex
+		return
 	}
 
 	count, _ := d.consumerCounter.Get(id)
 	d.consumerCounter.Set(id, count-1)
-
-	return mutex
 }
